@@ -62,6 +62,15 @@ CLAIMED["C13"] = dict(
          "tie-rounding witness is listed as a known finding); GP/CMA-ES/Wilcoxon and whole seeded runs outside",
     design="§3 C13")
 
+CLAIMED["C12"] = dict(
+    text="Bounded symbolic execution of the real best-trial code on in-memory, journal and cached backends: trial states and completion "
+         "order are forks, objective values z3 reals or +-inf with symbolic ties, constraints z3 reals; the result of Study.best_trial / "
+         "best_value / best_trials is compared by z3 with the O(n^2) definition (no strictly better eligible COMPLETE trial; feasible when "
+         "a feasible trial exists; exactly the non-dominated (feasible) set) on every path. n<=3 trials quick, <=4 thorough, 1-3 objectives.",
+    note="trusted: z3, NumPy object-array shim for _multi_objective (np.unique(axis=0)), JSON model of journal records; RDB SQL ranking, "
+         "4 objectives and NaN objective values outside",
+    design="§3 C12")
+
 NOT_APPLICABLE = {
     "C03": "thread/process pre-emption at source-line granularity inside the storage layer cannot be made a symbolic variable over the "
            "real Python code by a solver-based executor; its atomic-step obligations are discharged under C01/C04/C06/C07",
